@@ -1,4 +1,8 @@
 SPECIFICATION Spec
-INVARIANTS RoundTrip SelfDelimiting PrefixRejected FormsDecode OrderIrrelevant EmitCases
+INVARIANTS RoundTrip SelfDelimiting PrefixRejected AltPrefixRejected FormsDecode OrderIrrelevant EmitCases
 CHECK_DEADLOCK FALSE
-CONSTANT Depth = 2
+CONSTANTS
+ Depth = 2
+ ExtraDepth = 0
+ SampleMod = 1
+ SamplePhase = 0
